@@ -13,14 +13,14 @@ from props.C16 import _enc_dict
 REQUIRED_THEOREMS = ['Usid.C05.returned_is_genuine', 'Usid.C05.resume_is_most_recent_partial', 'Usid.C05.else_fresh',
                      'Usid.C05.malformed_never_used', 'Usid.C05.override_fresh_and_frame']
 RULE = ('histories of 0-5 earlier result groups (built with raw h5py) over dataset names {Raw, Raw_Data, Data, aw} x tools '
-        '{Fit, Fitter, it, Fit_x}, parameters equal or differing in one value/type/length/key, progress records of every '
+        '{Fit, Fitter, it, Fit_x}, parameters equal or differing in one value (including a large whole number off by one and a float off by a relative 4e-8)/type/length/key, progress records of every '
         'kind (complete, partial, legacy attribute only, neither, wrong dtype/length/rank, non-dataset, values outside '
         '{0,1}, nearly complete large N), same-file and separate-file targets (also a foreign source with the same '
         'dataset name); then a Process is constructed and compute(override) is run; non-trivial = at least one prior '
         'group whose name contains the dataset and tool text')
 DSETS = ['Raw', 'Raw_Data', 'Data', 'aw']
 TOOLS = ['Fit', 'Fitter', 'it', 'Fit_x', 'Fit_2']
-BASE_PARMS = {'a': 1, 'b': 'x', 'c': [1, 2, 3], 'd': 2.5}
+BASE_PARMS = {'a': 1, 'b': 'x', 'c': [1, 2, 3], 'd': 2.5, 'e': 250000}
 PROGRESS = ['complete', 'partial', 'partial', 'legacy-complete', 'legacy-partial', 'neither', 'wrong-dtype',
             'wrong-length', 'rank2', 'not-dataset', 'values-2', 'complete', 'partial']
 TRUSTED = ['the source of a results group in another file is identified by name only (known finding KF-D15)']
@@ -28,9 +28,13 @@ TRUSTED = ['the source of a results group in another file is identified by name 
 
 def perturb_parms(rng):
     p = copy.deepcopy(BASE_PARMS)
-    k = rng.choice(['same', 'same', 'same', 'value', 'type', 'length', 'missing', 'extra', 'str'])
+    k = rng.choice(['same', 'same', 'same', 'value', 'type', 'length', 'missing', 'extra', 'str', 'near-int', 'near-float'])
     if k == 'value':
         p['a'] = 2
+    elif k == 'near-int':            # a large whole number off by one: relative difference 4e-6
+        p['e'] = 250001
+    elif k == 'near-float':          # a scalar float off by a relative 4e-8
+        p['d'] = 2.5000001
     elif k == 'type':
         p['a'] = '1'
     elif k == 'length':
